@@ -1,9 +1,51 @@
 import Mimium.Model.Layout
 import Mimium.Model.StateTreeIO
-/-! `drv_c05`: judge recorded VM state-access traces against the published dsp layout.
-Input: `id \t status \t skeleton \t rec|rec|…` with rec = `trace@cursor@vmwords@wasmwords`, trace = `K:g:pos:size;…`.
-Output: `id \t ok <samples> <accesses>` or `id \t bad:<sample>:<reason>` or `id \t skip:<status>` -/
-open Mimium Mimium.Layout Mimium.StateTree
+import Mimium.Model.CoreIO
+import Mimium.Model.Publish
+/-! `drv_c05`: judge recorded VM state-access traces against the published dsp layout, and compare the layout the
+Lean model of mirgen (`Model/Publish.lean`) publishes for `dsp` with the skeleton of the real compiler.
+Input: `id \t status \t skeleton \t rec|rec|… [\t sexpr]` with rec = `trace@cursor@vmwords@wasmwords`, trace = `K:g:pos:size;…`.
+Output: `id \t ok <samples> <accesses>` or `id \t bad:<sample>:<reason>` or `id \t skip:<status>`, then (third field)
+`same|diff model=<skeleton>` + ` cells=<n> depth=<d> delays=<k> zero=<pruned children> cls=<0|1> clsz=<0|1> sites=<0|1>`, or `nomodel:<why>` -/
+open Mimium Mimium.Layout Mimium.StateTree Mimium.Core Mimium.FlatTree Mimium.Publish
+
+def nodupB : List Nat → Bool
+  | [] => true
+  | x :: xs => !(xs.contains x) && nodupB xs
+
+def sitesOkB (e : Expr) : Bool :=
+  nodupB ((siteLens e).map (·.1)) && (siteLens e).all (fun p => p.2 < 2 ^ 64)
+
+partial def countSk : Sk → Nat
+  | .fn cs => cs.foldl (fun a c => a + countSk c) 1
+  | _ => 1
+
+/-- cells of a skeleton (every node except the root and `Feed` cells) -/
+partial def skCellCount : Sk → Nat
+  | .fn cs => cs.foldl (fun a c => a + (match c with | .feed _ => 0 | .fn _ => 1 + skCellCount c | _ => 1)) 0
+  | _ => 0
+
+/-- nesting depth of `FnCall` children -/
+partial def skDepth : Sk → Nat
+  | .fn cs => cs.foldl (fun a c => max a (match c with | .fn _ => 1 + skDepth c | _ => 0)) 0
+  | _ => 0
+
+/-- compare the model's published skeleton of `dsp` with the implementation's -/
+def pubLine (skel : String) (sx : String) : String :=
+  if sx == "-" || sx.isEmpty then "nomodel:nosx" else
+  match parseProg sx with
+  | none => "nomodel:unparsable-sexpr"
+  | some P =>
+    match publishFn P P.dsp with
+    | none => "nomodel:no-layout(undefined-callee-or-recursion)"
+    | some lay =>
+      let m := (publishedSk lay).show
+      let cls := noStateInArms P P.dsp.body
+      let clsz := noStatefulInArms P P.dsp.body
+      let sites := sitesOkB P.dsp.body && P.fns.all (fun d => sitesOkB d.body)
+      let nzero := countSk lay.sk - countSk (publishedSk lay)
+      let info := s!" cells={skCellCount (publishedSk lay)} depth={skDepth (publishedSk lay)} delays={countDelays lay.cells} zero={nzero} cls={if cls then 1 else 0} clsz={if clsz then 1 else 0} sites={if sites then 1 else 0}"
+      if m == skel then "same" ++ info else s!"diff model={m}" ++ info
 
 def parseAccess (s : String) : Option (Bool × Access) :=
   match s.splitOn ":" with
@@ -21,13 +63,11 @@ def judgeRec (sk : Sk) (r : String) : Except String Nat :=
       let globals := (accs.filter (·.1)).map (·.2)
       if conforms sk globals cursor then .ok globals.length
       else if cursor != 0 then .error s!"cursor={cursor}"
-      else .error s!"trace-differs expected={repr (expectedTrace sk 0)} got={repr globals}"
+      else .error ((s!"trace-differs expected={repr (expectedTrace sk 0)} got={repr globals}").replace "\n" " ")
     | _, _ => .error "unparsable-record"
   | _ => .error "unparsable-record"
 
-def c05Line (line : String) : String :=
-  match line.splitOn "\t" with
-  | [id, status, skel, recs] =>
+def c05Line4 (id status skel recs : String) : String :=
     if status != "ok" then s!"{id}\tskip:{status}" else
     match parseSk skel with
     | none => s!"{id}\tbad:0:unparsable-skeleton"
@@ -39,7 +79,14 @@ def c05Line (line : String) : String :=
         | r :: rs => match judgeRec sk r with
           | .ok m => go rs (k + 1) (n + m)
           | .error e => s!"{id}\tbad:{k}:{e}"
+      if recs == "-" || recs.isEmpty then s!"{id}\tok 0 0" else
       go (recs.splitOn "|") 0 0
+
+def c05Line (line : String) : String :=
+  match line.splitOn "\t" with
+  | [id, status, skel, recs] => c05Line4 id status skel recs
+  | [id, status, skel, recs, sx] =>
+    c05Line4 id status skel recs ++ "\t" ++ (if skel == "-" then "nomodel:not-compiled" else pubLine skel sx)
   | _ => "?\tbad-line"
 
 partial def loop (h : IO.FS.Stream) (out : IO.FS.Stream) (f : String → String) : IO Unit := do
